@@ -563,6 +563,8 @@ class PathCtx:
                 if has_quantifier(part):
                     continue
                 self.solver.push()
+                for l in self.lemmas:
+                    self.solver.add(l)
                 self.solver.add(z3.Not(part))
                 rp = self._check()
                 if rp == z3.sat:
